@@ -482,6 +482,22 @@ func c04Exec(t *verifh.T, c verifh.Case, caseIdx int, base string, plans map[[2]
 				}
 				e.cads, e.archive = cads, archive
 				obs = []string{"ok"}
+			case "evict":
+				// TorrentArchive.DeleteTorrent = Any().DeleteFile: what the TTL clean-up of either directory
+				// (and a cache eviction) does to the entry; the torrent object is not used afterwards
+				if mark {
+					verifh.Mark("B", caseIdx, i)
+				}
+				err := e.archive.DeleteTorrent(e.d)
+				if mark {
+					verifh.Mark("E", caseIdx, i)
+				}
+				e.tor = nil
+				if err != nil {
+					obs = []string{"err-other"}
+				} else {
+					obs = []string{"ok"}
+				}
 			default:
 				obs = []string{"badop"}
 			}
@@ -582,8 +598,53 @@ func c04Cases() []verifh.Case {
 				ops = append(ops, []string{"op", "write", strconv.Itoa(i), verifh.Hex(piece(blob, shape.pl, i))})
 			}
 			ops = append(ops, []string{"op", "create"})
+			if len(out)%2 == 0 {
+				// the cached blob is evicted (cache clean-up) and downloaded again
+				ops = append(ops, []string{"op", "evict"}, []string{"op", "create"})
+				for _, i := range perm {
+					ops = append(ops, []string{"op", "write", strconv.Itoa(i), verifh.Hex(piece(blob, shape.pl, i))})
+				}
+			}
 			out = append(out, verifh.Case{Cfg: cfg, Ops: ops})
 		}
+	}
+	// what a crash followed by a clean-up (or a clean-up cut short) can leave: a directory without the blob
+	// file but with sidecars of the earlier incarnation, a stale status vector in particular (monitored)
+	for c := 0; c < verifh.Scale(16, 300); c++ {
+		n := 1 + r.Intn(6)
+		pl := 1 + r.Intn(2)
+		blob := c04Blob(r, n)
+		np := (n + pl - 1) / pl
+		d, _ := core.NewDigester().FromBytes(blob)
+		mi, _ := core.NewMetaInfo(d, bytes.NewReader(blob), int64(pl))
+		miBytes, _ := mi.Serialize()
+		cfg := []string{"blob=" + verifh.Hex(blob), "pl=" + strconv.Itoa(pl), "wps=" + r.Pick("0", "1"), "crash=all"}
+		fs := []string{"fs", "d:download/$"}
+		st := make([]byte, np)
+		for i := range st {
+			if r.Chance(2, 3) {
+				st[i] = 1
+			}
+		}
+		fs = append(fs, "f:download/$/_status:"+r.Pick("x", verifh.Hex(st), verifh.Hex(bytes.Repeat([]byte{1}, np))))
+		if r.Chance(1, 2) {
+			fs = append(fs, "f:download/$/_torrentmeta:"+r.Pick("x", verifh.Hex(miBytes)))
+		}
+		if r.Chance(1, 2) {
+			fs = append(fs, "f:download/$/_last_access_time:"+r.Pick("x", "x4c4154", "x4f4c44"))
+		}
+		if r.Chance(1, 4) {
+			fs = append(fs, "d:cache/$", "f:cache/$/_status:"+verifh.Hex(bytes.Repeat([]byte{1}, np)))
+		}
+		ops := [][]string{fs, {"op", "create"}}
+		for j := 0; j < 1+r.Intn(3); j++ {
+			i := r.Intn(np)
+			ops = append(ops, []string{"op", "write", strconv.Itoa(i), verifh.Hex(piece(blob, pl, i))})
+		}
+		if r.Chance(1, 3) {
+			ops = append(ops, []string{"op", "evict"}, []string{"op", "create"})
+		}
+		out = append(out, verifh.Case{Cfg: cfg, Ops: ops})
 	}
 	// random histories: wrong payloads, repeated writes, restarts in between
 	for c := 0; c < verifh.Scale(60, 1500); c++ {
@@ -594,7 +655,9 @@ func c04Cases() []verifh.Case {
 		cfg := []string{"blob=" + verifh.Hex(blob), "pl=" + strconv.Itoa(pl), "wps=" + r.Pick("0", "1", "2"), "crash=all"}
 		ops := [][]string{{"op", "create"}}
 		for j := 0; j < 2+r.Intn(8); j++ {
-			switch r.Intn(10) {
+			switch r.Intn(11) {
+			case 10:
+				ops = append(ops, []string{"op", "evict"}, []string{"op", "create"})
 			case 0:
 				ops = append(ops, []string{"op", "restart"}, []string{"op", "create"})
 			case 1:
